@@ -26,6 +26,9 @@ def judge_walk(prog, res, prop, owned, compress_modes, nontrivial, count_refused
     """Assemble prog in the given modes, walk, raise CaseFailure for the first owned discrepancy."""
     a = get_asm()
     src = prog.text()
+    if env.chash(src)[0] % 4 == 0:
+        src = src.replace('\n', '\r\n')    # one program in four is handed over with CR LF line endings
+        res.count('crlf_source')
     res.evaluations += 1
     walks = {}
     for comp in compress_modes:
